@@ -9,7 +9,7 @@ namespace tbfsim {
 template <class Cfg> struct AlgoSelect<Cfg, EX_OMP> { using type = TbfOpenmpAlgorithm<typename Cfg::Real, Probe<typename Cfg::Inner>, typename Cfg::Space>; };
 template <class Cfg> struct AlgoSelect<Cfg, EX_OMP_TSM> { using type = TbfOpenmpAlgorithmTsm<typename Cfg::Real, Probe<typename Cfg::Inner>, typename Cfg::Space>; };
 
-struct CfgWeightHilbert {
+struct CfgWeightHilbert : CfgCommon {
     using Real = double;
     using Space = TbfHilbertSpaceIndex<3, TbfSpacialConfiguration<double, 3>, false>;
     static constexpr long NbData = 4;
